@@ -1,11 +1,54 @@
-import TucanProofs.Lemmas.Sort
-import TucanModel.Canon
-/-! # C15 — property theorems (see DESIGN.md §5) -/
+import TucanProofs.Lemmas.Totality
+import TucanProofs.Examples
+/-!
+# C15 — the pipeline completes for every non-empty molecule regardless of size or shape  (PARTIAL)
+
+About the model, for graphs of every size and shape (no bound on atoms, components, degree or
+refinement depth): the pipeline returns a string — no `RecursionError`-like fuel exhaustion, no
+`AssertionError`, `IndexError`, `KeyError` or `ValueError` result is reachable.  The refinement is a loop
+(after the repair of the recursive generator) that provably stops within `n + 1` rounds; the BFS
+relabelling is defined by well-founded recursion, never pops an empty list and meets its assertion.
+What no theorem exhibits: Python's actual stack depth, memory, bliss's running time and the ANTLR
+runtime's own recursion — the harness runs the real pipeline on depth-linear families in the thousands.
+-/
 namespace Tucan
 
-/-- The neighbour part of an attribute sequence does not depend on the order in which the neighbours
-are listed. -/
-theorem C15_neighbour_keys_listing_independent {l₁ l₂ : List Key} (h : l₁.Perm l₂) :
-    sortKDesc l₁ = sortKDesc l₂ := sortKDesc_perm_eq h
+/-- **The pipeline returns**, for every oracle that answers with a permutation of the vertices. -/
+theorem C15_pipeline_total (order : Graph → List Nat) (hperm : ∀ r : Graph, r.WF → (order r).Perm r.labels)
+    (g : Graph) (hw : g.WF) (hs : g.Simple) (hne : g.labels ≠ [])
+    (hattrs : ∀ a ∈ g.labels, ∃ x, g.attrs? a = some x ∧ x.z.isSome ∧ x.inv.isSome) :
+    ∃ s, tucanOf order g = .ok s :=
+  pipeline_total order hperm g hw hs hne hattrs
+
+/-- canonicalization alone returns whatever the oracle answers -/
+theorem C15_canonicalize_total (order : Graph → List Nat) (g : Graph) (hw : g.WF) (hs : g.Simple)
+    (hne : g.labels ≠ [])
+    (hattrs : ∀ a ∈ g.labels, ∃ x, g.attrs? a = some x ∧ x.z.isSome ∧ x.inv.isSome) :
+    ∃ c r k, canonicalizeWith g order = .ok (c, r, k) :=
+  canonicalize_total order g hw hs hne hattrs
+
+/-- the refinement loop needs at most `n + 1` rounds: its depth is linear in the number of atoms, and the
+fuel `n + 1` the model gives it is never exhausted -/
+theorem C15_refinement_terminates (g : Graph) (hw : g.WF) (hs : g.Simple) (hd : Dense g) (hne : g.labels ≠ []) :
+    ∃ r n, refinePartitions g = .ok (r, n) ∧ n ≤ g.numberOfNodes :=
+  refinePartitions_ok copySpec mapAttrsSpec g hw hs hd hne
+
+/-- the cosmetic relabelling: no `IndexError` (empty `pop`), no `KeyError`, the `assert` holds, and the
+labels are assigned bijectively -/
+theorem C15_final_labels_total (v : View) (h : v.WF) :
+    ∃ fl, finalLabels v = .ok fl ∧ (fl.map (·.1)).Perm v.nodes ∧ (fl.map (·.2)).Perm v.nodes :=
+  let ⟨fl, h1, h2, h3, _⟩ := finalLabels_ok v h
+  ⟨fl, h1, h2, h3⟩
+
+/-- non-vacuity: the hypotheses are met by a concrete molecule -/
+example : exGraph.WF ∧ exGraph.Simple ∧ exGraph.labels ≠ [] ∧
+    (∀ a ∈ exGraph.labels, ∃ x, exGraph.attrs? a = some x ∧ x.z.isSome ∧ x.inv.isSome) := by
+  refine ⟨exGraph_wf, exGraph_simple, by decide, ?_⟩
+  intro a ha
+  have : a = 2 ∨ a = 0 ∨ a = 1 := by simpa [exGraph, Graph.labels] using ha
+  rcases this with rfl | rfl | rfl
+  · exact ⟨exAtomO, rfl, rfl, rfl⟩
+  · exact ⟨exAtomC13, rfl, rfl, rfl⟩
+  · exact ⟨exAtomC, rfl, rfl, rfl⟩
 
 end Tucan
